@@ -209,7 +209,10 @@ impl Audit<'_, WithLeafHash, WithRoot> {
                 root,
             },
         } = self;
-        *root == proof.reconstruct_root_with_leaf_hash(*leaf_hash)
+        // A proof whose audit path does not have exactly one hash per step from the leaf to the
+        // root cannot prove inclusion in a tree of the stated size.
+        crate::audit_path_len(proof.leaf_index, proof.tree_size.get()) == Some(proof.len())
+            && *root == proof.reconstruct_root_with_leaf_hash(*leaf_hash)
     }
 }
 
@@ -279,11 +282,18 @@ impl std::fmt::Display for InvalidProofKind {
                 leaf_index,
                 tree_size,
             } => {
-                let tree_index = crate::leaf_index_to_tree_index(*leaf_index);
-                f.write_fmt(format_args!(
-                    "leaf index {leaf_index} corresponding to tree index {tree_index} exceeds \
-                     tree of size {tree_size}"
-                ))
+                // the tree index `2 * leaf_index` can overflow for the untrusted leaf indices
+                // reported by this error
+                if let Some(tree_index) = leaf_index.checked_mul(2) {
+                    f.write_fmt(format_args!(
+                        "leaf index {leaf_index} corresponding to tree index {tree_index} \
+                         exceeds tree of size {tree_size}"
+                    ))
+                } else {
+                    f.write_fmt(format_args!(
+                        "leaf index {leaf_index} exceeds tree of size {tree_size}"
+                    ))
+                }
             }
             InvalidProofKind::ZeroTreeSize => f.pad("proof is undefined for trees of size zero"),
         }
@@ -543,9 +553,14 @@ impl Proof {
             leaf_index,
             tree_size,
         } = self;
+        // The walk from the leaf to the root takes exactly `steps` steps. Surplus hashes in the
+        // audit path must not be walked as that would leave the tree.
+        let Some(steps) = crate::audit_path_len(*leaf_index, tree_size.get()) else {
+            return leaf_hash;
+        };
         let mut i = crate::leaf_index_to_tree_index(*leaf_index);
         let mut acc = leaf_hash;
-        for sibling in audit_path.chunks(32) {
+        for sibling in audit_path.chunks(32).take(steps) {
             let parent = crate::complete_parent(i, tree_size.get());
             if parent > i {
                 acc = crate::combine(&acc, sibling);
